@@ -24,6 +24,142 @@ EXPLANATION = (
 SCHED = "redun/scheduler.py"
 
 
+def _export_sources(fn):
+    """Union-set abstract interpretation of Job.__init__ for self.export_options: returns the final states
+    (parent_job truth on the path: True/False/None, atoms unioned into the set, whether a non-union operation was applied)."""
+    ATOMS = ("task._export_options", "expr._export_options", "parent_job.export_options")
+
+    def atoms(e, env):
+        """-> (atoms, filtered) of a set-valued expression."""
+        if isinstance(e, ast.BinOp):
+            a1, f1 = atoms(e.left, env)
+            a2, f2 = atoms(e.right, env)
+            if isinstance(e.op, ast.BitOr):
+                return a1 | a2, f1 or f2
+            return a1 | a2, True
+        t = src(e)
+        if t in ATOMS:
+            return {t}, False
+        if t == "self.export_options":
+            return set(env["self"][0]), env["self"][1]
+        if isinstance(e, ast.Name) and e.id in env:
+            return set(env[e.id][0]), env[e.id][1]
+        if isinstance(e, ast.Call):
+            cn = call_name(e) or ""
+            if cn in ("set", "frozenset") and len(e.args) <= 1 and not e.keywords:
+                return atoms(e.args[0], env) if e.args else (set(), False)
+            if isinstance(e.func, ast.Attribute) and e.func.attr in ("union", "copy"):
+                a, f = atoms(e.func.value, env)
+                for x in e.args:
+                    a2, f2 = atoms(x, env)
+                    a |= a2
+                    f = f or f2
+                return a, f
+        if isinstance(e, ast.Constant) and e.value is None:
+            return set(), False
+        return set(), True  # unknown producer: treated as not including anything
+
+    def parent_test(t):
+        """truth value of `parent_job` implied by test t being true / false: (when_true, when_false)."""
+        if isinstance(t, ast.UnaryOp) and isinstance(t.op, ast.Not):
+            a, b = parent_test(t.operand)
+            return b, a
+        x = src(t)
+        if x in ("parent_job", "parent_job is not None"):
+            return True, False
+        if x == "parent_job is None":
+            return False, True
+        if isinstance(t, ast.BoolOp) and isinstance(t.op, ast.And):
+            # all conjuncts true on the true arm; nothing known on the false arm
+            wt = None
+            for v in t.values:
+                a, _ = parent_test(v)
+                if a is not None:
+                    wt = a
+            return wt, None
+        if isinstance(t, ast.BoolOp) and isinstance(t.op, ast.Or):
+            wf = None
+            for v in t.values:
+                _, b = parent_test(v)
+                if b is not None:
+                    wf = b
+            return None, wf
+        return None, None
+
+    def merge_truth(old, new):
+        return old if new is None else new
+
+    def assign(env, name, val, state_truth):
+        outs = []
+        if isinstance(val, ast.IfExp):
+            wt, wf = parent_test(val.test)
+            for arm, tr in ((val.body, wt), (val.orelse, wf)):
+                if tr is not None and state_truth is not None and tr != state_truth:
+                    continue
+                e2 = dict(env)
+                e2[name] = atoms(arm, env)
+                outs.append((merge_truth(state_truth, tr), e2))
+            return outs
+        e2 = dict(env)
+        e2[name] = atoms(val, env)
+        return [(state_truth, e2)]
+
+    def block(stmts, states):
+        for st in stmts:
+            nxt = []
+            for truth, env in states:
+                if isinstance(st, (ast.Assign, ast.AnnAssign)) and getattr(st, "value", None) is not None:
+                    tg = st.targets[0] if isinstance(st, ast.Assign) else st.target
+                    if src(tg) == "self.export_options":
+                        nxt += assign(env, "self", st.value, truth)
+                        continue
+                    if isinstance(tg, ast.Name) and (atoms(st.value, env)[0] or src(st.value) in ("set()",)):
+                        nxt += assign(env, tg.id, st.value, truth)
+                        continue
+                    nxt.append((truth, env))
+                elif isinstance(st, ast.AugAssign) and src(st.target) == "self.export_options":
+                    a, f = atoms(st.value, env)
+                    e2 = dict(env)
+                    e2["self"] = (env["self"][0] | a, env["self"][1] or f or not isinstance(st.op, ast.BitOr))
+                    nxt.append((truth, e2))
+                elif isinstance(st, ast.Expr) and isinstance(st.value, ast.Call) and src(st.value.func) in ("self.export_options.update", "self.export_options.__ior__"):
+                    e2 = dict(env)
+                    a, f = set(env["self"][0]), env["self"][1]
+                    for x in st.value.args:
+                        a2, f2 = atoms(x, env)
+                        a |= a2
+                        f = f or f2
+                    e2["self"] = (a, f)
+                    nxt.append((truth, e2))
+                elif isinstance(st, ast.Expr) and isinstance(st.value, ast.Call) and src(st.value.func).startswith("self.export_options."):
+                    e2 = dict(env)
+                    e2["self"] = (env["self"][0], True)
+                    nxt.append((truth, e2))
+                elif isinstance(st, ast.If):
+                    wt, wf = parent_test(st.test)
+                    for arm, tr in ((st.body, wt), (st.orelse, wf)):
+                        if tr is not None and truth is not None and tr != truth:
+                            continue
+                        nxt += block(arm, [(merge_truth(truth, tr), dict(env))])
+                elif isinstance(st, (ast.With, ast.Try, ast.For, ast.While)) and "export_options" in src(st):
+                    raise AnalysisError("Job.__init__: export_options built inside a loop/try/with (unknown idiom)", "Job.__init__")
+                else:
+                    nxt.append((truth, env))
+            states = nxt
+        return states
+
+    finals = block(fn.body, [(None, {"self": (set(), False)})])
+    out = []
+    seen = set()
+    for truth, env in finals:
+        a, f = env["self"]
+        key = (truth, frozenset(a), f)
+        if key not in seen and (a or f):
+            seen.add(key)
+            out.append((truth, set(a), f))
+    return out
+
+
 def run(ctx):
     repo = ctx.repo
     m = repo.mod(SCHED)
@@ -99,9 +235,23 @@ def run(ctx):
 
     r3 = ctx.rule("C27.3", "exported option names accumulate monotonically down the job tree", floor=3)
     ji = m.func("Job.__init__")
-    tji = src(ji)
-    ok = "self.export_options: set[str] = task._export_options | expr._export_options" in tji and "self.export_options |= parent_job.export_options" in tji
-    r3.check(ok, f"{m.rel}:Job.__init__:export_options", "a job's exported option names are not task's | expression's | parent's", m.rel, ji.lineno)
+    finals = _export_sources(ji)
+    base = {"task._export_options", "expr._export_options"}
+    if not finals:
+        raise AnalysisError("Job.__init__: no assignment to self.export_options found", "Job.__init__")
+    for parent_truth, sources, filtered in finals:
+        need = set(base)
+        if parent_truth is not False:
+            need.add("parent_job.export_options")
+        missing = sorted(need - sources)
+        r3.check(
+            not missing and not filtered,
+            f"{m.rel}:Job.__init__:export_options",
+            f"on the path where parent_job is {'absent' if parent_truth is False else 'present'}, the job's exported option names are built from {sorted(sources)}"
+            f"{' through a non-union operation' if filtered else ''}; missing {missing}: names exported by an ancestor (or by the task/expression) stop reaching descendants",
+            m.rel,
+            ji.lineno,
+        )
     geo = m.func("Job.get_export_options")
     ok = "self.get_options().items()" in src(geo) and "if key in self.export_options" in src(geo)
     r3.check(ok, f"{m.rel}:Job.get_export_options", "exported options are not the job's evaluated options filtered by its exported names", m.rel, geo.lineno)
